@@ -46,22 +46,57 @@ fn pseudo_file_lens(name: &str) -> Option<Vec<usize>> {
 }
 
 pub fn op_frontend(job: &Value) -> Value {
+    let entry = job["entry"].as_str().unwrap();
+    let bytes: Vec<u8> = job["bytes"].as_array().unwrap().iter().map(|b| b.as_u64().unwrap() as u8).collect();
+    let text = String::from_utf8_lossy(&bytes).to_string();
+    let scratch = job["scratch"].as_str().unwrap_or("/tmp");
+    // include files next to the input: written into a directory of their own, which is the search path
+    let files: Vec<(String, Vec<u8>)> = job.get("files").and_then(|f| f.as_object()).map(|o| o.iter().map(|(k, v)| (k.clone(), v.as_array().unwrap().iter().map(|b| b.as_u64().unwrap() as u8).collect())).collect()).unwrap_or_default();
+    let fdir = format!("{scratch}/c14f_{}", std::process::id());
+    let mut search: Vec<String> = vec![];
+    if !files.is_empty() || entry == "cldb-file" {
+        let _ = std::fs::remove_dir_all(&fdir);
+        std::fs::create_dir_all(&fdir).unwrap();
+        for (name, content) in &files {
+            std::fs::write(format!("{fdir}/{name}"), content).unwrap();
+        }
+        search.push(fdir.clone());
+    }
+    let r = op_frontend_inner(job, entry, &bytes, &text, scratch, &files, &fdir, &search);
+    if !search.is_empty() {
+        let _ = std::fs::remove_dir_all(&fdir);
+    }
+    r
+}
+
+#[allow(clippy::too_many_arguments)]
+fn op_frontend_inner(job: &Value, entry: &str, bytes: &[u8], text: &str, scratch: &str, files: &[(String, Vec<u8>)], fdir: &str, search: &[String]) -> Value {
     use chialisp::classic::clvm::__type_compatibility__::{Bytes, BytesFromType, Stream};
     use chialisp::classic::clvm::serialize::{sexp_from_stream, SimpleCreateCLVMObject};
     use chialisp::classic::clvm_tools::binutils::{assemble, disassemble};
     use chialisp::classic::clvm_tools::cmds::launch_tool;
     use clvmr::allocator::Allocator;
-    let entry = job["entry"].as_str().unwrap();
-    let bytes: Vec<u8> = job["bytes"].as_array().unwrap().iter().map(|b| b.as_u64().unwrap() as u8).collect();
-    let text = String::from_utf8_lossy(&bytes).to_string();
-    let scratch = job["scratch"].as_str().unwrap_or("/tmp");
+    let _ = job;
+    let text = text.to_string();
+    let bytes = bytes.to_vec();
+    // the line lengths of the text a location's file name stands for: the input, a pseudo-file, or an include file
+    let lens_of = |file: &str| -> Option<Vec<usize>> {
+        if file == "*input*" || file.ends_with("/main.clsp") {
+            return Some(line_lens(&text));
+        }
+        if let Some(l) = pseudo_file_lens(file) {
+            return Some(l);
+        }
+        let base = file.rsplit('/').next().unwrap_or(file);
+        files.iter().find(|(n, _)| n == base).map(|(_, c)| line_lens(&String::from_utf8_lossy(c)))
+    };
     let ok = |detail: &str| json!({"outcome": "ok", "detail": detail.chars().take(80).collect::<String>()});
     let err = |msg: String| json!({"outcome": "err", "msg": msg.chars().take(200).collect::<String>()});
     match entry {
-        "compile" => match compile_lib(&text, "*input*", &[], None) {
+        "compile" => match compile_lib(&text, "*input*", search, None) {
             Ok(_) => ok("compiled"),
             Err(CompFail::Modern { file, line, col, until, msg }) => {
-                let lens = if file == "*input*" { Some(line_lens(&text)) } else { pseudo_file_lens(&file) };
+                let lens = lens_of(&file);
                 json!({"outcome": "err", "modern": true, "file": file, "line": line, "col": col, "uline": until.map(|u| u.0).unwrap_or(0), "ucol": until.map(|u| u.1).unwrap_or(0),
                     "lens": lens, "msg": msg.chars().take(200).collect::<String>()})
             }
@@ -126,22 +161,70 @@ pub fn op_frontend(job: &Value) -> Value {
             }
             ok(if run.is_ended() { "ended" } else { "step budget" })
         }
+        "cldb-file" => {
+            // the debugger on a source *file*: compiled as cldb compiles it, stepped with the file's lines at hand (the
+            // rows quote the source text of every operator located in the file)
+            use chialisp::classic::clvm_tools::comp_input::RunAndCompileInputData;
+            use chialisp::classic::clvm_tools::stages::stage_0::{DefaultProgramRunner, TRunProgram};
+            use chialisp::classic::platform::argparse::ArgumentValue;
+            use chialisp::compiler::cldb::{CldbNoOverride, CldbRun, CldbRunEnv};
+            use chialisp::compiler::clvm::start_step;
+            use chialisp::compiler::sexp::parse_sexp;
+            use chialisp::compiler::srcloc::Srcloc;
+            let path = format!("{fdir}/main.clsp");
+            std::fs::write(&path, &bytes).unwrap();
+            let mut a = Allocator::new();
+            let mut pa: HashMap<String, ArgumentValue> = HashMap::new();
+            pa.insert("path_or_code".to_string(), ArgumentValue::ArgString(Some(path.clone()), text.clone()));
+            pa.insert("include".to_string(), ArgumentValue::ArgArray(search.iter().map(|s| ArgumentValue::ArgString(None, s.clone())).collect()));
+            let parsed = match RunAndCompileInputData::new(&mut a, &pa) {
+                Ok(p) => p,
+                Err(e) => return err(e),
+            };
+            let mut syms = HashMap::new();
+            let program = match parsed.compile_modern(&mut a, &mut syms) {
+                Ok(p) => p,
+                Err(e) => {
+                    let l = &e.0;
+                    return json!({"outcome": "err", "modern": true, "file": l.file.to_string(), "line": l.line, "col": l.col,
+                        "uline": l.until.as_ref().map(|u| u.line).unwrap_or(0), "ucol": l.until.as_ref().map(|u| u.col).unwrap_or(0),
+                        "lens": lens_of(&l.file), "msg": e.1.chars().take(200).collect::<String>()});
+                }
+            };
+            let env = parse_sexp(Srcloc::start("*args*"), "(5 7 11)".bytes()).unwrap()[0].clone();
+            let lines: Rc<Vec<String>> = Rc::new(text.lines().map(|x| x.to_string()).collect());
+            let runner: Rc<dyn TRunProgram> = Rc::new(DefaultProgramRunner::new());
+            let cenv = CldbRunEnv::new(Some(path.clone()), lines, Box::new(CldbNoOverride::new_symbols(syms)));
+            let mut run = CldbRun::new(runner, chialisp::compiler::prims::prim_map(), Box::new(cenv), start_step(program, env));
+            let mut n = 0;
+            while !run.is_ended() && n < 3000 {
+                let _ = run.step(&mut a);
+                n += 1;
+            }
+            ok(if run.is_ended() { "ended" } else { "step budget" })
+        }
         "preprocess" | "deps" => {
             let path = format!("{scratch}/c14_{}_{}.clsp", std::process::id(), entry);
             std::fs::write(&path, &bytes).unwrap();
             let r = if entry == "deps" {
-                let d = crate::p_includes::op_deps(&json!({"file": path, "search": []}));
+                let d = crate::p_includes::op_deps(&json!({"file": path, "search": search}));
                 if d.get("deps").is_some() { ok("deps") } else { err(d["err"].as_str().unwrap_or("").to_string()) }
             } else {
                 let mut s = Stream::new(None);
-                launch_tool(&mut s, &["run".to_string(), "-E".to_string(), path.clone()], "run", 2);
+                let mut a = vec!["run".to_string(), "-E".to_string()];
+                for d in search {
+                    a.push("-i".to_string());
+                    a.push(d.clone());
+                }
+                a.push(path.clone());
+                launch_tool(&mut s, &a, "run", 2);
                 ok(&s.get_value().decode())
             };
             let _ = std::fs::remove_file(&path);
             r
         }
         "usecheck" => {
-            let r = crate::p_usecheck::op_usecheck(&json!({"text": text}));
+            let r = crate::p_usecheck::op_usecheck(&json!({"text": text, "search": search}));
             if r.get("reported").is_some() { ok("checked") } else { err(r["err"].as_str().unwrap_or("").to_string()) }
         }
         "repl" => {
@@ -395,9 +478,121 @@ pub fn drive(args: &HashMap<String, String>) {
             made += 1;
         }
     }
+    // inputs that come with include files and / or go to a subset of the entry points
+    let mut extras: HashMap<usize, (Vec<(String, Vec<u8>)>, Vec<&'static str>)> = HashMap::new();
+    {
+        let sigs = ["*standard-cl-21*", "*standard-cl-23*", "*strict-cl-21*", "*standard-cl-24*", ""];
+        let inc = |sig: &str| if sig.is_empty() { String::new() } else { format!("(include {sig}) ") };
+        // include files of every degenerate kind, reached by include and by the three kinds of embed-file
+        let contents: Vec<(&str, Vec<u8>)> = vec![
+            ("empty", b"".to_vec()), ("comment-only", b"; nothing\n".to_vec()), ("blank", b"   \n\n".to_vec()), ("nil", b"()".to_vec()), ("nil-in-list", b"(())".to_vec()),
+            ("open", b"(".to_vec()), ("close", b")".to_vec()), ("atom", b"x".to_vec()), ("atom-list", b"(x)".to_vec()),
+            ("self", b"((include f.clib))".to_vec()), ("mutual", b"((include g.clib))".to_vec()), ("unclosed-defun", b"((defun f (X) X)".to_vec()),
+            ("binary", vec![0xff, 0xfe, 0x00, 0x28]), ("trailing", b"((defconstant K 1)) trailing".to_vec()),
+            ("fine", b"(\n(defun h (X) (+ X 1))\n)".to_vec()), ("open-string", b"\"unterminated".to_vec()), ("missing-inside", b"((include missing.clib))".to_vec()),
+            ("embed-self", b"((embed-file Q bin f.clib))".to_vec()), ("dotted", b"((defun f (X) X) . 5)".to_vec()), ("two-forms", b"((defconstant K 1)) ((defconstant L 2))".to_vec()),
+            ("deep", format!("{}x{}", "(".repeat(120), ")".repeat(120)).into_bytes()), ("hex-junk", b"zz".to_vec()), ("hex-odd", b"abc".to_vec()),
+        ];
+        let uses = ["(include f.clib)", "(embed-file K sexp f.clib)", "(embed-file K hex f.clib)", "(embed-file K bin f.clib)", "(include f.clib) (include f.clib)"];
+        for (si, sig) in sigs.iter().enumerate() {
+            for (ui, u) in uses.iter().enumerate() {
+                for (ci, (_, c)) in contents.iter().enumerate() {
+                    // quick tier: every content under every use for two sigils, a third of the rest
+                    if n <= 100 && si >= 2 && (ci + ui + si) % 3 != 0 {
+                        continue;
+                    }
+                    let body = if ui == 0 || ui == 4 { "X" } else { "(c K X)" };
+                    let text = format!("(mod (X) {}{u} {body})", inc(sig));
+                    extras.insert(inputs.len(), (vec![("f.clib".to_string(), c.clone()), ("g.clib".to_string(), b"((include f.clib))".to_vec())],
+                        vec!["compile", "deps", "preprocess", "usecheck", "cldb-file"]));
+                    inputs.push(("include-files".into(), text.into_bytes()));
+                }
+            }
+        }
+        // compile-time code that does not terminate, or not soon: in a defmac body, a defmacro, a constant
+        for sig in ["*strict-cl-21*", "*standard-cl-23*", "*standard-cl-24*", "*standard-cl-21*"] {
+            for t in [
+                "(defun lp (x) (lp x)) (defmac m (x) (lp x)) (m 1)",
+                "(defun lp (x) (lp (c x x))) (defmac m (x) (lp x)) (m 1)",
+                "(defun cnt (n) (if n (cnt (- n 1)) 7)) (defmac m (x) (cnt 100000)) (m 1)",
+                "(defun cnt (n) (if n (cnt (- n 1)) 7)) (defmac m (x) (cnt 50)) (m 1)",
+                "(defmac m (x) (m2 x)) (defmac m2 (x) (m x)) (m 1)",
+                "(defun lp (x) (lp x)) (defconst K (lp 1)) K",
+                "(defun lp (x) (lp x)) (defconstant K (lp 1)) K",
+                "(defmacro m (x) (qq (m2 (unquote x)))) (defmacro m2 (x) (qq (m (unquote x)))) (m 1)",
+                "(defun lp (x) (lp x)) (lp 1)",
+                "(defun-inline lp (x) (lp2 x)) (defun lp2 (x) (lp x)) (lp 1)",
+            ] {
+                extras.insert(inputs.len(), (vec![], vec!["compile", "usecheck", "preprocess", "deps", "cldb-file"]));
+                inputs.push(("compile-time-divergence".into(), format!("(mod (X) (include {sig}) {t})").into_bytes()));
+            }
+        }
+        // raw apply of quoted code that is an environment path of every sign and width (what the partial evaluator and
+        // the unused-argument check meet when a program applies data)
+        for sig in ["*standard-cl-21*", "*standard-cl-22*", "*standard-cl-23*", ""] {
+            for pth in ["-1", "0xff", "-128", "0x80", "255", "0", "1", "2", "0xffff", "-32768", "0x0001", "0x00ff", "-129", "0x8000", "18446744073709551615", "-18446744073709551616", "()", "\"a\""] {
+                for envx in ["(c x x)", "x", "()", "(list x x x)", "@"] {
+                    let t = format!("(mod (x) {}(a (q . {pth}) {envx}))", inc(sig));
+                    extras.insert(inputs.len(), (vec![], vec!["compile", "usecheck", "cldb-file", "run"]));
+                    inputs.push(("apply-path-atoms".into(), t.into_bytes()));
+                }
+            }
+        }
+        // source texts in which columns and bytes part ways: tabs and non-ASCII characters before, between and after the
+        // operators on a line, in comments and in strings (the debugger quotes source text by column)
+        for sig in ["*standard-cl-21*", "*standard-cl-23*"] {
+            for t in [
+                "(mod (X)\n  (include SIG)\n  (defun f (A) (+ A 1))\n\t(f X));\u{e9}\n",
+                "(mod (X)\n  (include SIG)\n\t\t(+ X 1));\u{e9}\u{e9}\u{e9}\u{e9}\u{e9}\u{e9}\n",
+                "; \u{e9}\u{e9}\u{e9}\u{e9}\u{e9}\u{e9}\u{e9}\u{e9}\u{e9}\u{e9}\u{e9}\u{e9}\n(mod (X) (include SIG) (+ X 1))",
+                "(mod (X) (include SIG) (c \"\u{e9}\u{e9}\" (+ X 1))) ;\u{4e2d}\u{6587}",
+                "(mod (X) (include SIG)\t(c \"\u{1f600}\"\t(+ X\t1)))\t;\u{1f600}",
+                "\t(mod (X) (include SIG) (defun g (A) (* A 2)) (+ (g X) 1))\u{e9}",
+                "(mod (X) (include SIG) (defun-inline g (A) (* A 2))\n\t\t\t\t(+ (g X) (g 1)))\u{e9}\u{e9}",
+                "(mod (\u{e9}) (include SIG) (+ \u{e9} 1))",
+                "(mod (X) (include SIG) (+ X 1))\r\n\t;\u{e9}\r\n",
+            ] {
+                let text = t.replace("SIG", sig);
+                extras.insert(inputs.len(), (vec![], vec!["cldb-file", "compile", "repl", "preprocess"]));
+                inputs.push(("tabs-and-wide-characters".into(), text.into_bytes()));
+            }
+        }
+        // calls with constant arguments, k per helper body, in 1..3 helpers and in the main expression (cl23+ folds such a
+        // call by compiling and running the helpers at compile time, once, under a guard)
+        for sig in ["*standard-cl-23*", "*standard-cl-23.1*", "*standard-cl-24*", "*standard-cl-21*", "*standard-cl-22*"] {
+            for helpers in 1..=3usize {
+                for calls in 1..=3usize {
+                    for shape in 0..3usize {
+                        let callee = "(defun f (A) (* A 2)) (defun-inline fi (A) (+ A 3))";
+                        let mut defs = String::new();
+                        for h in 0..helpers {
+                            let cs: Vec<String> = (0..calls).map(|k| match shape {
+                                0 => format!("(f {})", k + 1),
+                                1 => format!("(f (fi {}))", k + 1),
+                                _ => format!("(f (f {}))", k + 1),
+                            }).collect();
+                            defs.push_str(&format!(" (defun g{h} (Y) (+ Y {}))", cs.join(" ")));
+                        }
+                        let main: Vec<String> = (0..helpers).map(|h| format!("(g{h} X)")).collect();
+                        let t = format!("(mod (X) (include {sig}) {callee}{defs} (+ (f 5) {}))", main.join(" "));
+                        extras.insert(inputs.len(), (vec![], vec!["compile", "usecheck", "cldb-file"]));
+                        inputs.push(("constant-calls".into(), t.into_bytes()));
+                    }
+                }
+            }
+        }
+    }
     let mut jobs = vec![];
     let mut owner = vec![];
     for (ii, (_, b)) in inputs.iter().enumerate() {
+        if let Some((files, entries)) = extras.get(&ii) {
+            let fj: serde_json::Map<String, Value> = files.iter().map(|(k, v)| (k.clone(), json!(v))).collect();
+            for e in entries {
+                jobs.push(json!({"op": "frontend", "entry": e, "bytes": b, "scratch": scratch, "files": fj}));
+                owner.push((ii, *e));
+            }
+            continue;
+        }
         for e in ENTRIES {
             if ii >= first_deep && !matches!(e, "compile" | "usecheck" | "preprocess") {
                 continue;
@@ -430,7 +625,8 @@ pub fn drive(args: &HashMap<String, String>) {
             "lens": if lens.is_null() { json!([]) } else { lens }})).unwrap();
         rep.traces += 1;
         if matches!(outcome, "panic" | "abort" | "timeout" | "garbled") {
-            rep.violation(json!({"property": "C14", "kind": format!("entry-point-{outcome}"), "entry": e, "family": family, "bytes": bytes,
+            let files_json: serde_json::Map<String, Value> = extras.get(ii).map(|(fs, _)| fs.iter().map(|(k, v)| (k.clone(), json!(v))).collect()).unwrap_or_default();
+            rep.violation(json!({"property": "C14", "kind": format!("entry-point-{outcome}"), "entry": e, "family": family, "bytes": bytes, "files": files_json,
                 "text": String::from_utf8_lossy(bytes).chars().take(600).collect::<String>(), "observed": r}));
         }
         if rep.samples.len() < 4 && outcome == "err" && modern {
